@@ -60,7 +60,7 @@ Qed.
 (* every (ttl, rdata) of the bucket comes from a zone record with matching name and type, and so
    does the set's name *)
 Definition from_zone (zrecs : list rr) (qn : name) (qt : N) (rs : rrset) : Prop :=
-  (exists x, In x zrecs /\ rname x = fst rs /\ name_eqb_ci (rname x) qn = true) /\
+  (exists x, In x zrecs /\ rname x = fst rs /\ name_eqb_ci (rname x) qn = true /\ rtype x = qt) /\
   forall tr, In tr (snd rs) ->
     exists x, In x zrecs /\ name_eqb_ci (rname x) qn = true /\ rtype x = qt /\
               rttl x = fst tr /\ rdata x = snd tr.
@@ -238,7 +238,7 @@ Proof.
   rewrite Ez in Ez'. injection Ez' as <-.
   destruct (Hrecs _ Hin) as (x' & Hx' & Hn & Ht & Httl & Hrd). cbn [fst snd] in *.
   apply zone_records_in in Hx' as (x & Hx & Hk & ->). cbn [strip rname rtype rttl rdata] in *.
-  destruct Hname as (y' & Hy' & Hy1 & Hy2).
+  destruct Hname as (y' & Hy' & Hy1 & Hy2 & _).
   destruct L as (sig & ts & pay & plen & -> & Hhist & V). cbn [pay_id C37.payload] in Ep.
   unfold justified. cbn [rtype rname rttl rdata]. rewrite N.eqb_refl. cbn [andb].
   apply existsb_exists. exists (K, Full sig ts pay plen). split; [exact Hhist|].
@@ -295,6 +295,37 @@ Proof.
   - split; [exact I'|]. now destruct (z32 O K).
 Qed.
 
+(* ---------- direct store resolve ---------- *)
+Lemma resolve_obs_spec O origins static s hist k n t :
+  Inv O s hist ->
+  Inv O (fst (resolve_obs O s k n t)) hist /\
+  obs_ok O origins static hist (Resolve k n t) (snd (resolve_obs O s k n t)) = true.
+Proof.
+  intros I. unfold resolve_obs.
+  destruct (resolve_spec O s hist k n t I) as [I' Hrs].
+  destruct (resolve O s k n t) as [s' r]. cbn [fst snd] in *.
+  destruct r as [[[setname recs]|]|e|]; cbn [fst snd obs_ok]; split; try exact I';
+    try (now destruct (z32 O k)).
+  specialize (Hrs _ eq_refl).
+  destruct (z32 O k) as [zl|] eqn:Ez.
+  - apply forallb_forall. intros r Hr.
+    apply in_map_iff in Hr as ([ttl rd] & <- & Hin). cbn [fst snd rname rtype rttl rdata].
+    pose proof (from_packet_justified O hist k zl [] n t (setname, recs) ttl rd Ez Hrs Hin) as J.
+    cbn [fst app] in J. unfold justified in *. cbn [rtype rname rttl rdata app] in *.
+    rewrite lower_name_app in J. cbn [lower_name map] in J. exact J.
+  - destruct Hrs as (p & zl & recs' & _ & Ez' & _). congruence.
+Qed.
+
+(* the store never hands out a record set of type SOA or NS *)
+Lemma from_packet_not_soa_ns O hist k qn qt rs :
+  from_packet O hist k qn qt rs -> qt <> T_SOA /\ qt <> T_NS.
+Proof.
+  intros (p & zl & recs & _ & _ & _ & [(x' & Hx' & _ & _ & Ht) _]).
+  apply zone_records_in in Hx' as (x & _ & Hk & ->). cbn [strip rtype] in Ht. subst qt.
+  unfold keep in Hk. apply andb_prop in Hk as [Hk _].
+  apply negb_true_iff, orb_false_iff in Hk as [A B]. apply N.eqb_neq in A, B. auto.
+Qed.
+
 (* ---------- every step of the model satisfies the monitor ---------- *)
 Definition hist_after (hist : list (N * body)) (o : op) : list (N * body) :=
   match o with Put k b => hist ++ [(k, b)] | _ => hist end.
@@ -304,7 +335,7 @@ Lemma step_spec O origins static s hist o :
   Inv O (fst (step O origins static s o)) (hist_after hist o) /\
   obs_ok O origins static hist o (snd (step O origins static s o)) = true.
 Proof.
-  intros I. destruct o as [k b|k|n t]; cbn [step hist_after].
+  intros I. destruct o as [k b|k|n t|k n t]; cbn [step hist_after].
   - pose proof (inv_put O s hist k b I) as I'. pose proof (put_code O s k b) as C.
     destruct (put O s k b) as [s' c]. cbn [fst snd] in *. split; [exact I'|].
     cbn [obs_ok]. rewrite C. now destruct (put_accepted O k b).
@@ -316,6 +347,7 @@ Proof.
     now rewrite !N.eqb_refl, V.
   - pose proof (query_spec O origins static s hist n t I) as [I' H].
     destruct (query O origins static s n t) as [s' [rc ans]]. cbn [fst snd] in *. auto.
+  - apply resolve_obs_spec. exact I.
 Qed.
 
 Lemma run_spec O origins static : forall ops s hist,
@@ -396,6 +428,37 @@ Proof.
   apply N.eqb_neq in H1, H2, H3. rewrite H1, H2, H3 in H. cbn [orb] in H.
   rewrite Hp, Hz in H. rewrite forallb_forall in H. specialize (H _ Hr).
   eapply justified_Prop. exact H.
+Qed.
+
+(* The same at the level of the store (ZoneStore::resolve, what every DNS front end is served from), for
+   EVERY name and EVERY type: a found record set is never of type SOA / NS, and each of its records was
+   published in a packet PUT under K with a signature verifying for K, under K's zone label. *)
+Lemma store_resolve_subset_of_signed_zone O origins static ops K qn t zl rs :
+  z32 O K = Some zl ->
+  snd (resolve O (final O origins static ops) K qn t) = Ok (Some rs) ->
+  t <> T_SOA /\ t <> T_NS /\
+  forall ttl rd, In (ttl, rd) (snd rs) ->
+    Justified O (puts ops) K zl [] (mkRR (lower_name (fst rs ++ [zl])) t ttl rd).
+Proof.
+  intros Ez E.
+  pose proof (run_inv O origins static ops C37.init [] (inv_init O)) as I. cbn [app] in I.
+  fold (final O origins static ops) in I.
+  destruct (resolve_spec O _ _ K qn t I) as [_ H]. specialize (H _ E).
+  destruct (from_packet_not_soa_ns _ _ _ _ _ _ H) as [A B]. repeat split; auto.
+  intros ttl rd Hin.
+  pose proof (from_packet_justified O (puts ops) K zl [] qn t rs ttl rd Ez H Hin) as J.
+  apply justified_Prop in J as [_ J]. exact J.
+Qed.
+
+Lemma store_never_serves_soa_ns O origins static ops K qn t rs :
+  t = T_SOA \/ t = T_NS ->
+  snd (resolve O (final O origins static ops) K qn t) <> Ok (Some rs).
+Proof.
+  intros Ht E.
+  pose proof (run_inv O origins static ops C37.init [] (inv_init O)) as I. cbn [app] in I.
+  fold (final O origins static ops) in I.
+  destruct (resolve_spec O _ _ K qn t I) as [_ H]. specialize (H _ E).
+  destruct (from_packet_not_soa_ns _ _ _ _ _ _ H) as [A B]. tauto.
 Qed.
 
 (* A rejected PUT (in particular: signature does not verify for the key in the request) changes nothing. *)
@@ -501,4 +564,28 @@ Example ex_monitor_rejects :
           (Ok [OPut 0; OPut 4; OAns 0 [mkRR qB 16 30 [1;98]]]) = false /\
   monitor (envX, [Put 0 (Full 0 1 0 80); Put 1 (Full 0 1 0 80); Query qB 16])
           (Ok [OPut 0; OPut 0; OAns 3 []]) = false.
+Proof. split; vm_compute; reflexivity. Qed.
+
+(* direct store resolve: a packet whose ONLY record is an NS record under the signer's zone is accepted,
+   but the store hands out nothing for (name, NS); a single TXT record is handed out *)
+Definition envY : env :=
+  mkEnv [[lbl "dns"; lbl "test"]]
+        [(0, zA); (1, zB)]
+        [(0, (true, Some [mkRR [lbl "sub"; zA] 2 30 [9]]));
+         (1, (true, Some [mkRR [lbl "sub"; zB] 16 30 [1;100]]))]
+        [(0, (0, 1, 0)); (1, (1, 1, 1))]
+        [mkRR [lbl "dns"; lbl "test"] 6 1209600 [7]].
+
+Example ex_single_ns_record_not_served :
+  model (envY, [Put 0 (Full 0 1 0 40); Resolve 0 [lbl "sub"] 2; Resolve 0 [lbl "SUB"] 16;
+                Put 1 (Full 1 1 1 40); Resolve 1 [lbl "SUB"] 16; Resolve 1 [lbl "sub"] 2])
+  = Ok [OPut 0; ORes 1 []; ORes 1 []; OPut 0; ORes 0 [mkRR [lbl "sub"] 16 30 [1;100]]; ORes 1 []].
+Proof. vm_compute. reflexivity. Qed.
+
+(* ... and the monitor rejects a store that hands the NS record out *)
+Example ex_monitor_rejects_served_ns :
+  monitor (envY, [Put 0 (Full 0 1 0 40); Resolve 0 [lbl "sub"] 2])
+          (Ok [OPut 0; ORes 0 [mkRR [lbl "sub"] 2 30 [9]]]) = false /\
+  monitor (envY, [Put 1 (Full 1 1 1 40); Resolve 1 [lbl "sub"] 16])
+          (Ok [OPut 0; ORes 0 [mkRR [lbl "sub"] 16 30 [1;100]]]) = true.
 Proof. split; vm_compute; reflexivity. Qed.
